@@ -7,7 +7,10 @@ import (
 	"regexp"
 	"runtime"
 	"runtime/debug"
+	"runtime/metrics"
+	"strconv"
 	"strings"
+	"time"
 )
 
 // WorkerLoop runs cases k, k+stride, ... < n starting at the first index >= start.
@@ -18,6 +21,7 @@ func WorkerLoop(ck *Check, tier string, seed uint64, k, stride, start, n int, jo
 	}
 	debug.SetMaxStack(ms << 20)
 	debug.SetMemoryLimit(6 << 30)
+	go memoryMonitor()
 	jf, err := os.OpenFile(journal, os.O_CREATE|os.O_WRONLY|os.O_APPEND, 0644)
 	if err != nil {
 		fmt.Fprintln(os.Stderr, "journal:", err)
@@ -139,4 +143,24 @@ func InnermostLibFunc(stack string) string {
 	return ""
 }
 
-func init() { _ = runtime.NumCPU }
+// memoryMonitor ends the worker with a recognisable fatal report when the live heap of the process passes the limit
+// (VERIF_MEMLIMIT_MB, default 3072): an input that makes the library allocate gigabytes is a crash for the caller, and it must
+// be attributed to its case before the machine starts swapping. The verdict depends on the heap size only.
+func memoryMonitor() {
+	limit := uint64(3072)
+	if v, err := strconv.ParseUint(os.Getenv("VERIF_MEMLIMIT_MB"), 10, 64); err == nil && v > 0 {
+		limit = v
+	}
+	limit <<= 20
+	samples := []metrics.Sample{{Name: "/memory/classes/heap/objects:bytes"}}
+	for {
+		time.Sleep(50 * time.Millisecond)
+		metrics.Read(samples)
+		if samples[0].Value.Kind() == metrics.KindUint64 && samples[0].Value.Uint64() > limit {
+			buf := make([]byte, 1<<20)
+			n := runtime.Stack(buf, true)
+			fmt.Fprintf(os.Stderr, "fatal error: out of memory (verif monitor: live heap %d MiB exceeds %d MiB)\n\n%s\n", samples[0].Value.Uint64()>>20, limit>>20, buf[:n])
+			os.Exit(4)
+		}
+	}
+}
